@@ -44,7 +44,10 @@ SameEntry(a, b) == /\ a.i = b.i /\ a.t = b.t /\ a.ty = b.ty
                    /\ a.dl = b.dl /\ a.dh = b.dh /\ a.xl = b.xl /\ a.xh = b.xh /\ a.ts = b.ts
 
 Ok(q) == {x \in Range(q) : x.st = "ok"}
-At(q, i) == {x \in Range(q) : x.i = i}
+\* the recorded digests are in index order: try the position first, scan only if that is not the entry
+At(q, i) == IF q # <<>> /\ i >= q[1].i /\ i - q[1].i + 1 <= Len(q) /\ q[i - q[1].i + 1].i = i
+            THEN {q[i - q[1].i + 1]}
+            ELSE {x \in Range(q) : x.i = i}
 
 (* destination holds exactly the source entries with index <= upto, and nothing else *)
 HoldsPrefix(e, upto) ==
